@@ -180,10 +180,38 @@ def history(ev: List[int], df: List[int]) -> bool:
     return hx.holds((ev, df), True, (trace,), "")
 
 
+def stream_cut(a: int) -> bool:
+    """
+    pre: P["lo"] <= a < P["hi"]
+    post: _
+    """
+    hx.begin()
+    try:
+        b = B.Bench(n_peers=1, stats=True)
+        n, p, app = b.node, b.peers[0], b.apps[0]
+        c, s = b.make_ready(p)
+        msgs = [mk("dwr", 601, 901), mk("ccr_unknown_app", 602, 902), mk("dwr", 603, 903)]
+        wire = b"".join(m.as_bytes() for m in msgs)
+        k = hx.concretize_range(a, P["lo"], P["hi"])
+        for chunk in (wire[:k], wire[k:]):
+            if chunk:
+                c.add_in_bytes(chunk)
+                WORLD.pump_queue(c._read_buffer_queue, c.work_read_queue)        # the read worker only: answers stay on the message queue
+        out = [sig(m) for m in drain(c) if not m.header.is_request]
+    except Exception as e:
+        return hx.fail((a,), "raised " + type(e).__name__)
+    return hx.check((a,), (out,), ([sig(m) for m in msgs],), "requests arriving as a byte stream (cut anywhere): exactly one answer each, in order")
+
+
 def specs(tier, seed, carve):
     q = tier == "quick"
     out = [dict(id="one_step/state%d" % st, fn="one_step", params={"st": st}, timeout=600, bound="connection state %#x x 15 message kinds x 5 defect classes (incl. T flag with the id in the retransmission window) x handler raises/returns" % STATES[st])
            for st in range(len(STATES))]
+    nbytes = sum(len(mk(k_, 1, 1).as_bytes()) for k_ in ("dwr", "ccr_unknown_app", "dwr"))
+    step = 24
+    for lo in range(0, nbytes + 1, step):
+        out.append(dict(id="stream_cut/%d" % lo, fn="stream_cut", params={"lo": lo, "hi": min(lo + step, nbytes + 1)}, timeout=600,
+                        bound="3 requests (DWR, rejected CCR, DWR) as one byte stream through the real read worker, cut at every position in [%d, %d)" % (lo, min(lo + step, nbytes + 1))))
     import random
     rnd = random.Random(seed)
     firsts = [(e, d) for e in range(len(EVENTS)) for d in (0, 1, 2)]
